@@ -1101,7 +1101,8 @@ package machine
 //@ pred Refused(m *Machine, r Result) := r == Canceled
 
 //@ func (m *Machine) Add(states S, args A) (r Result)
-//@   props C03 C13
+//@   props C03 C13 C20
+//@   requires locks: unlocked(m.activeStatesMx) && unlocked(m.schemaMx) && unlocked(m.queueMx)
 //@   requires api:   ApiPre(m) && Known(m, states)
 //@   assigns *
 //@   ensures  disposing: old(m.disposing) ==> r == Canceled && ghost.applied == old(ghost.applied) && unchanged(m.queue, m.queueTick, m.activeStates) && mapeq(m.clock, old(m.clock))
@@ -1484,9 +1485,10 @@ package machine
 //@   requires locks: unlocked(m.activeStatesMx) && unlocked(m.queueMx) && unlocked(m.schemaMx) && unlocked(m.tracersMx) && unlocked(m.logEntriesLock)
 //@   requires api:   QueueInv(m) && len(m.queue) < 65535 && m.queueTick + m.queueTicksPending < MaxU64 && (forall i int :: 0 <= i && i < len(m.tracers) ==> m.tracers[i] != nil)
 //@   requires data:  len(data.Time) == len(data.StateNames) && nodup(data.StateNames)
+//@   requires same:  SchemaInv(m) && (forall x string :: mem(data.StateNames, x) <==> mem(m.stateNames, x))
 //@   assigns  *
-//@   ensures  clocks: err == nil && !mem(data.StateNames, "MachineRestored") ==> (forall i int :: 0 <= i && i < len(data.Time) ==> m.clock[data.StateNames[i]] == data.Time[i])
-//@   ensures  active: err == nil && !mem(data.StateNames, "MachineRestored") ==> (forall s string :: mem(m.activeStates, s) <==> (exists i int :: 0 <= i && i < len(data.Time) && data.StateNames[i] == s && odd(data.Time[i])))
-//@   ensures  names:  err == nil && !mem(data.StateNames, "MachineRestored") ==> seqeq(m.stateNames, data.StateNames) && m.machineTick == u32(data.MachineTick + 1)
-//@   ensures  locks:  unlocked(m.activeStatesMx) && unlocked(m.queueMx) && unlocked(m.schemaMx)
+//@   ensures  clocks: err == nil && !old(mem(data.StateNames, "MachineRestored")) ==> (forall i int :: 0 <= i && i < len(data.Time) ==> m.clock[data.StateNames[i]] == data.Time[i])
+//@   ensures  active: err == nil && !old(mem(data.StateNames, "MachineRestored")) ==> (forall s string :: mem(m.activeStates, s) <==> (exists i int :: 0 <= i && i < len(data.Time) && data.StateNames[i] == s && odd(data.Time[i])))
+//@   ensures  names:  err == nil && !old(mem(data.StateNames, "MachineRestored")) ==> seqeq(m.stateNames, data.StateNames) && m.machineTick == u32(data.MachineTick + 1)
+//@   ensures  locks:  !old(mem(data.StateNames, "MachineRestored")) ==> unlocked(m.activeStatesMx) && unlocked(m.queueMx) && unlocked(m.schemaMx)
 //@   loop 1 invariant restored: !isnil(m.clock) && (forall j int :: 0 <= j && j < idx1 ==> m.clock[data.StateNames[j]] == data.Time[j]) && (forall s string :: mem(m.activeStates, s) <==> (exists j int :: 0 <= j && j < idx1 && data.StateNames[j] == s && odd(data.Time[j])))
